@@ -7,6 +7,7 @@ import (
 	"fmt"
 	"os"
 	"sort"
+	"strconv"
 	"strings"
 	"testing"
 
@@ -20,8 +21,8 @@ import (
 )
 
 type c02case struct {
-	Toks []psref.Tok `json:"toks"`
-	Text string      `json:"text"`
+	Toks []psref.Tok  `json:"toks"`
+	Text string       `json:"text"`
 	Cfg  psgen.Config `json:"cfg"`
 }
 
@@ -178,6 +179,101 @@ func TestP2Programs(t *testing.T) {
 		}
 		if res.Msg != "" {
 			rec.Fail(t, res.Msg, c02case{Toks: toks, Text: psgen.Spell(toks), Cfg: cfg})
+		}
+	})
+}
+
+// words turns a blank-separated program text (integers, /literal names,
+// executable names, { } nesting) into tokens.
+func words(text string) []psref.Tok {
+	var stack [][]psref.Tok
+	cur := []psref.Tok{}
+	for _, w := range strings.Fields(text) {
+		switch {
+		case w == "{":
+			stack = append(stack, cur)
+			cur = []psref.Tok{}
+		case w == "}":
+			p := psref.TP(cur...)
+			cur = append(stack[len(stack)-1], p)
+			stack = stack[:len(stack)-1]
+		case w[0] == '/':
+			cur = append(cur, psref.TL(w[1:]))
+		default:
+			if v, err := strconv.ParseInt(w, 10, 64); err == nil {
+				cur = append(cur, psref.TI(v))
+			} else {
+				cur = append(cur, psref.TX(w))
+			}
+		}
+	}
+	return cur
+}
+
+func TestP3Scale(t *testing.T) {
+	rec := ev.New("C02", "scale")
+	defer rec.Finish(t)
+	rec.Rule("the stack and composite-object operators at scale: 40-400 operands pushed by a for loop, then roll with every kind of count (positive, negative, more than half, more than n, 0), index and copy deep into the stack; arrays of 40-400 and strings of 40-3000 elements built on the stack or with array/string and filled with put in a loop, then getinterval / putinterval / copy between overlapping and disjoint intervals, forall sums, length; dictionaries of 40-400 entries filled in a loop, then length, known, get, dict copy. Oracle as for the other parts (reference interpreter, canonical final state). Non-trivial: always; distinct by program text.")
+	cfg := config(rec)
+	ev.SetupRapid(3000, 60000)
+	rapid.Check(t, func(t *rapid.T) {
+		n := rapid.OneOf(rapid.IntRange(40, 140), rapid.IntRange(60, 400)).Draw(t, "n")
+		ir := func(label string, lo, hi int) int { return rapid.IntRange(lo, hi).Draw(t, label) }
+		var text string
+		switch kind := ir("scalekind", 0, 8); kind {
+		case 0: // roll
+			j := rapid.OneOf(rapid.IntRange(-n, n), rapid.IntRange(n/2, n), rapid.IntRange(-3*n, 3*n)).Draw(t, "j")
+			k := ir("rolln", n/2, n)
+			text = fmt.Sprintf("1 1 %d { } for %d %d roll", n, k, j)
+		case 1: // index
+			text = fmt.Sprintf("1 1 %d { } for %d index %d index", n, ir("idx", 0, n-1), ir("idx2", 0, n))
+		case 2: // copy of many operands (twice the operands must fit the stack)
+			m := n
+			if m > 200 {
+				m = 200
+			}
+			text = fmt.Sprintf("1 1 %d { } for %d copy", m, ir("copyn", m/2, m))
+		case 3: // array built on the stack, intervals
+			a, b := ir("a", 0, n), 0
+			b = ir("b", 0, n-a)
+			text = fmt.Sprintf("[ 1 1 %d { } for ] dup %d %d getinterval dup length exch 0 exch { add } forall", n, a, b)
+		case 4: // overlapping putinterval inside one long array
+			src, ln := ir("src", 0, n-1), 0
+			ln = ir("len", 0, n-src)
+			dst := ir("dst", 0, n-ln)
+			text = fmt.Sprintf("/a [ 1 1 %d { } for ] def a %d a %d %d getinterval putinterval a 0 get a %d get a %d get 0 a { add } forall", n, dst, src, ln, n-1, n/2)
+		case 5: // long string filled by a loop, interval copied into another
+			m := ir("slen", 40, 3000)
+			a := ir("sa", 0, m)
+			b := ir("sb", 0, m-a)
+			text = fmt.Sprintf("/s %d string def 0 1 %d { s exch dup 251 mul 255 and put } for s %d %d getinterval %d string copy dup length exch 0 exch { add } forall s %d s 0 %d getinterval putinterval 0 s { add } forall", m, m-1, a, b, m, m-b, b)
+		case 6: // array made with array, filled with put, copied
+			text = fmt.Sprintf("/a %d array def 0 1 %d { a exch dup 3 mul put } for a %d array copy length a %d get a %d %d getinterval length", n, n-1, n+ir("extra", 0, 5), ir("g", 0, n-1), ir("ga", 0, n/2), ir("gb", 0, n/2))
+		case 7: // dictionary with many entries
+			var sb strings.Builder
+			fmt.Fprintf(&sb, "/d %d dict def d begin ", n)
+			for i := 0; i < n; i++ {
+				fmt.Fprintf(&sb, "/k%d %d def ", i, 7*i)
+			}
+			fmt.Fprintf(&sb, "end d length d /k%d get d /k%d known d /k%d known d %d dict copy length d /k%d 1 put d /k0 get", ir("dget", 0, n-1), ir("dknown", 0, n-1), n, n+ir("dextra", 0, 3), n/2)
+			text = sb.String()
+		default: // deep stack then array from mark
+			text = fmt.Sprintf("mark 1 1 %d { } for ] length count", n)
+		}
+		toks := words(text)
+		res := ev.SafeRes(func() psdiff.Result { return runToks(toks, cfg) })
+		if res.Skip != "" {
+			rec.Excluded(strings.SplitN(res.Skip, ":", 2)[0])
+			return
+		}
+		rec.Eval(1)
+		rec.Class(strings.Fields(text)[len(strings.Fields(text))-1])
+		rec.NonTrivial(text)
+		if rec.WantSample() {
+			rec.Sample(text)
+		}
+		if res.Msg != "" {
+			rec.Fail(t, res.Msg, c02case{Toks: toks, Text: text, Cfg: cfg})
 		}
 	})
 }
